@@ -55,6 +55,9 @@ Print Assumptions C01_ape_parse_rendered.
 Example C01_ape_hypotheses_satisfiable :
   ape_wf audio = true /\ forallb item_valid [it_title; it_cover; it_url] = true /\
   exists f', ape_save false audio [it_title; it_cover; it_url] = Ok f' /\ ape_load f' = Ok (Some [it_url; it_title; it_cover]).
-Proof. split; [vm_compute; reflexivity|]. split; [vm_compute; reflexivity|]. eexists. split; vm_compute; reflexivity. Qed.
+Proof.
+  split; [vm_compute; reflexivity|]. split; [vm_compute; reflexivity|].
+  exists (audio ++ ape_render_tag [it_title; it_cover; it_url]). split; vm_compute; reflexivity.
+Qed.
 Example C01_ape_empty_tag_reads_as_none : ape_load (audio ++ ape_render_tag []) = Ok None /\ canon [] = None.
 Proof. split; vm_compute; reflexivity. Qed.
